@@ -153,6 +153,16 @@ CLAIMED = {
         note="Monotonicity of gammainc(a, .), ndtri, x/beta, k*x is assumed (contracts); an index whose scaled value coincides with the nodata "
              "number is indistinguishable from nodata. Trusted: pysym, z3, contracts.",
         technique="symbolic execution with division / cast obligations + z3 UF/LIRA with monotonicity lemma instances", ref="5 C08"),
+    "C09": dict(
+        text="Bounded symbolic verification: utils.get_calibration_indices (ungrouped and per group), utils.to_linspace and the window logic of "
+             "PixelAlgorithms.spi executed symbolically with the time stamps, calibration_begin and calibration_end as z3 integers (on, between, "
+             "before and after steps): a step is inside [start, stop) iff begin <= t <= end (per group on the group's sub-series, row g of the "
+             "index table belonging to dense code g), codes of to_linspace are the ranks of the labels for every partition and label order, "
+             "invalid windows (fewer than 2 steps, reversed, empty) raise ValueError, valid ones are accepted, the kernel receives exactly "
+             "the inclusive window and the recorded attributes are the first / last step inside it. T <= 5/7, <= 3 groups.",
+        note="pandas DatetimeIndex / searchsorted / np.unique / pandas.unique as contracts (validated against the libraries); grouped = "
+             "per-group ungrouped on kernel level is C07's grouped-driver claim. Trusted: pysym, z3, contracts.",
+        technique="symbolic execution of utils + accessor logic over index contracts, z3 LIA", ref="5 C09"),
 }
 
 NOT_APPLICABLE = {
